@@ -24,6 +24,15 @@ func MustSucceed(op Op) []Problem {
 // RunHistories generates nh histories and audits each operation. extra (optional) is an
 // additional per-op auditor defined by the calling check.
 func RunHistories(r *ev.Run, nh int, o gen.Opts, so StepOpts, minOps, maxOps int, auds []Auditor, extra Auditor) {
+	RunHistoriesX(r, nh, o, so, minOps, maxOps, auds, extra, nil)
+}
+
+// Inject may perform harness-specific operations before a regular step (hostile attempts,
+// fault injection ...) and return problems.
+type Inject func(s *SUT, rng *rand.Rand) []Problem
+
+// RunHistoriesX is RunHistories with an injection hook.
+func RunHistoriesX(r *ev.Run, nh int, o gen.Opts, so StepOpts, minOps, maxOps int, auds []Auditor, extra Auditor, inj Inject) {
 	only := -1
 	if r.Replay != "" {
 		// replay: re-run exactly the history named by the witness file
@@ -47,14 +56,14 @@ func RunHistories(r *ev.Run, nh int, o gen.Opts, so StepOpts, minOps, maxOps int
 			continue
 		}
 		rng := rand.New(rand.NewSource(r.Seed*1000003 + int64(h)))
-		runOne(r, h, rng, o, so, minOps, maxOps, auds, extra)
+		runOne(r, h, rng, o, so, minOps, maxOps, auds, extra, inj)
 	}
 }
 
 // Verbose makes violations carry the tail of the node's captured log.
 var Verbose = false
 
-func runOne(r *ev.Run, h int, rng *rand.Rand, o gen.Opts, so StepOpts, minOps, maxOps int, auds []Auditor, extra Auditor) {
+func runOne(r *ev.Run, h int, rng *rand.Rand, o gen.Opts, so StepOpts, minOps, maxOps int, auds []Auditor, extra Auditor, inj Inject) {
 	var s *SUT
 	defer func() {
 		if p := recover(); p != nil {
@@ -87,8 +96,18 @@ func runOne(r *ev.Run, h int, rng *rand.Rand, o gen.Opts, so StepOpts, minOps, m
 	nops := minOps + rng.Intn(maxOps-minOps+1)
 	bad := false
 	for i := 0; i < nops && !bad; i++ {
-		op := s.Step(rng, so)
 		var ps []Problem
+		if inj != nil {
+			ps = append(ps, inj(s, rng)...)
+		}
+		if len(ps) > 0 {
+			for _, p := range ps {
+				r.Violation(p.Sig, p.Detail+"\nops: "+strings.Join(s.OpLog(), " "), map[string]interface{}{
+					"history": h, "seed": r.Seed, "tree": t.Shape(), "ops": s.OpLog()})
+			}
+			break
+		}
+		op := s.Step(rng, so)
 		if extra != nil {
 			ps = append(ps, extra(s, op)...)
 		}
@@ -97,7 +116,7 @@ func runOne(r *ev.Run, h int, rng *rand.Rand, o gen.Opts, so StepOpts, minOps, m
 		}
 		for _, p := range ps {
 			if Verbose {
-				p.Detail += "\nlog tail:\n" + strings.Join(s.N.Log.Tail(25), "\n")
+				p.Detail += "\nlog tail:\n" + strings.Join(s.N.Log.Tail(200), "\n")
 			}
 			r.Violation(p.Sig, p.Detail+"\nops: "+strings.Join(s.OpLog(), " "), map[string]interface{}{
 				"history": h, "seed": r.Seed, "tree": t.Shape(), "ops": s.OpLog()})
@@ -105,7 +124,7 @@ func runOne(r *ev.Run, h int, rng *rand.Rand, o gen.Opts, so StepOpts, minOps, m
 		}
 	}
 	shape := t.Shape() + "|" + opShape(s.Log)
-	r.Case(shape, s.Stats["walk.undo"] > 0)
+	r.Case(shape, s.Stats["walk.undo"] > 0 && (inj == nil || s.Stats["op.attempt"] > 0))
 	for k, v := range s.Stats {
 		r.Count(k, v)
 	}
